@@ -7,6 +7,7 @@ let () =
   | _ :: "pattern-gen" :: file :: _ -> Pattern_cmd.gen_file file
   | _ :: "pattern" :: file :: fx :: rest -> Pattern_cmd.run_file file (fx <> "pinned") (match rest with s :: _ -> Some s | [] -> None)
   | _ :: "pattern-oracle" :: file :: impl :: _ -> Pattern_cmd.oracle_file file impl
+  | _ :: "append" :: file :: _ -> Pattern_cmd.append_file file
   | _ :: "parsort" :: file :: _ -> Parsort_cmd.run_file file
   | _ :: "parsort-pib" :: file :: _ -> Parsort_cmd.pib_file file
   | _ :: "layout" :: file :: _ -> Match_cmd.layout_file file
